@@ -5,3 +5,4 @@ pub mod logl1;
 pub mod storemode;
 pub mod logl2;
 pub mod c02;
+pub mod c05;
